@@ -527,7 +527,25 @@ def run(ctx):
                 return "P" if variant == "Borrowed" else "N"
             return None
 
-        pfk = PredFlow(f, csw_k)
+        def cb_k(x):
+            # a bool obtained from one of the crate's own predicates on the kind (`self.is_borrowed()`): it says `Borrowed`
+            # iff every result that predicate assigns is true exactly under kind == Borrowed (or exactly under the opposite)
+            x = strip_sym(x)
+            if not (isinstance(x, tuple) and x and x[0] == "call" and isinstance(x[1], str)):
+                return None
+            g = (getattr(m, "raw_by_path", None) or m.by_path).get(x[1])
+            if g is None or not g.j.get("mir") or "bool" not in str(g.j.get("ret", g.j.get("sig", "bool"))):
+                return None
+            try:
+                if PredFlow(g, csw_k).returned_bool_agrees()[0]:
+                    return ("P", "N")
+                if PredFlow(g, lambda s_, v_: {"P": "N", "N": "P"}.get(csw_k(s_, v_))).returned_bool_agrees()[0]:
+                    return ("N", "P")
+            except Exception:
+                return None
+            return None
+
+        pfk = PredFlow(f, csw_k, cb_k)
         reb = [c for c in nonforeign_calls(f) if c.fn is f and c.is_("Cowable::borrowed_from_parts")]
         own = [c for c in nonforeign_calls(f) if c.fn is f and c.is_("Cow<'_, T>::into_owned", "cow::Cow<'a, T>::into_owned", "into_owned") and "cow::Cow" in (c.resolved or "")]
         ok = len(reb) == 1 and len(own) == 1 and pfk.at(reb[0].bb) == "P" and pfk.at(own[0].bb) == "N"
